@@ -524,10 +524,25 @@ static void exec_gates(const Plan &p, RunResult &r) {
                 r.v.raise("restart-differs", "C05.functional", fmt("op %zu: ciphertext under wire trips / duplicates / cloud restart differs from the uninterrupted reference", oi), (int) oi);
                 break;
             }
-        // the re-imported secret key decrypts identically
-        for (size_t w = 0; w < ref.wires.size() && w < flt.wires.size() && !r.v.set; w++)
-            if (ref.wires[w].ct && flt.wires[w].ct && bootsSymDecrypt(ref.wires[w].ct, kc->sk) != bootsSymDecrypt(flt.wires[w].ct, kc->sk))
-                r.v.raise("restart-differs", "C05.decrypt", "decryption differs after restart", -1);
+        // the client restarts too: its secret key set goes through the store and the re-imported key must decrypt identically
+        if (!r.v.set && sp.n <= 100) {
+            Rng wr(mix64(p.seed, 0x5ec)); WireCfg wc = draw_wire(wr), rc = draw_wire(wr);
+            Obj so; so.kind = K_SECRETKEY; so.p = kc->sk; so.owned = false;
+            WriteLog log; export_via(so, wc, &log);
+            bool sf = false; Obj imp = import_via(so, log.bytes, rc, nullptr, &sf);
+            if (sf || !imp.p) r.v.raise("reimport-failed", "C05.restart", "re-import of the exported secret key set failed", -1);
+            else {
+                const TFheGateBootstrappingSecretKeySet *sk2 = (const TFheGateBootstrappingSecretKeySet *) imp.p;
+                for (size_t w = 0; w < ref.wires.size() && w < flt.wires.size() && !r.v.set; w++)
+                    if (ref.wires[w].ct && flt.wires[w].ct) {
+                        int d0 = bootsSymDecrypt(ref.wires[w].ct, kc->sk), d1 = bootsSymDecrypt(flt.wires[w].ct, sk2);
+                        if (d0 != d1 || lwePhase(ref.wires[w].ct, kc->sk->lwe_key) != lwePhase(flt.wires[w].ct, sk2->lwe_key))
+                            r.v.raise("restart-differs", "C05.decrypt", fmt("wire %zu decrypts to %d under the original secret key and %d under the re-imported one", w, d0, d1), -1);
+                    }
+                r.faults.add("F-crash-client");
+                obj_free(imp);
+            }
+        }
     }
     if (obs::hash_cloud(kc->ck) != cloud_hash0) r.v.raise("key-modified", "C15.cloud-key-end", "cloud key changed during the run", -1);
     free_pass(ref); free_pass(flt);
